@@ -60,7 +60,12 @@ impl Stats {
             }
         }
         for (k, v) in o.counters {
-            *self.counters.entry(k).or_default() += v;
+            let e = self.counters.entry(k.clone()).or_default();
+            if k.starts_with("max_") {
+                *e = (*e).max(v);
+            } else {
+                *e += v;
+            }
         }
         for (k, v) in o.backends {
             *self.backends.entry(k).or_default() += v;
@@ -151,7 +156,7 @@ pub fn run_property(def: &'static PropDef, tier: Tier, seed: u64, cases_override
                         // another worker found a failure: finish quickly
                         return Ok(());
                     }
-                    hbv::crash::set_current(w, &case.to_text(def.specs));
+                    hbv::crash::set_current(w, &case.to_text(hbv::specs::specs_for(&case.kind)));
                     let out = (def.eval)(&case);
                     hbv::crash::clear_current(w);
                     if !failed.get() {
@@ -164,7 +169,7 @@ pub fn run_property(def: &'static PropDef, tier: Tier, seed: u64, cases_override
                         if nt {
                             st.nontrivial.insert(dg);
                             if st.samples.len() < 2 && w < 2 {
-                                st.samples.push(case.to_text(def.specs));
+                                st.samples.push(case.to_text(hbv::specs::specs_for(&case.kind)));
                             }
                         }
                         let pn = plan_name(&case);
@@ -174,7 +179,12 @@ pub fn run_property(def: &'static PropDef, tier: Tier, seed: u64, cases_override
                         }
                         *st.per_plan.entry(pn).or_default().entry("cases".to_string()).or_default() += 1;
                         for (k, v) in &out.counters {
-                            *st.counters.entry(k.to_string()).or_default() += v;
+                            let e = st.counters.entry(k.to_string()).or_default();
+                            if k.starts_with("max_") {
+                                *e = (*e).max(*v);
+                            } else {
+                                *e += v;
+                            }
                         }
                         let be = if case.h("backend") == 0 { "sse2" } else { "generic" };
                         *st.backends.entry(be.to_string()).or_default() += 1;
@@ -290,7 +300,7 @@ pub fn write_replay(def: &PropDef, f: &Failure, dir: &str, seed: u64, tier: Tier
         f.violation.step,
         f.violation.detail.replace('\n', " ")
     ));
-    text.push_str(&f.case.to_text(def.specs));
+    text.push_str(&f.case.to_text(hbv::specs::specs_for(&f.case.kind)));
     let _ = std::fs::write(&path, text);
     path
 }
